@@ -412,6 +412,35 @@ def str_eq(I, w, ci, args):
             b = I.read(w, b[1])
     if a[0] == 'cstr' and b[0] == 'cstr':
         return [(w, TRUE if a[1] == b[1] else FALSE)]
+    if a[0] == 'arr' and b[0] == 'cstr':
+        b = ('arr', tuple((i, const_int(x)) for i, x in enumerate(b[1])), TOP)
+    elif a[0] == 'cstr' and b[0] == 'arr':
+        a = ('arr', tuple((i, const_int(x)) for i, x in enumerate(a[1])), TOP)
+    if a[0] == 'arr' and b[0] == 'arr':
+        # fixed-size arrays: equal iff equal element by element
+        idx = sorted({i for i, _ in a[1]} | {i for i, _ in b[1]})
+        da, db = dict(a[1]), dict(b[1])
+        if idx and (a[2] == TOP or b[2] == TOP) is False or idx:
+            verdicts = []
+            for i in idx:
+                x, y = da.get(i, a[2]), db.get(i, b[2])
+                if not (is_int(x) and is_int(y)):
+                    verdicts.append(None)
+                    continue
+                sx, sy = int_singleton(x), int_singleton(y)
+                if sx is not None and sy is not None:
+                    verdicts.append(sx == sy)
+                elif x[2] is None and y[2] is None and x[1] and y[1] and not (x[1] & y[1]):
+                    verdicts.append(False)
+                else:
+                    verdicts.append(None)
+            if any(v is False for v in verdicts):
+                return [(w, FALSE)]
+            if all(v is True for v in verdicts) and a[2] == b[2] and is_int(a[2]) and int_singleton(a[2]) is not None:
+                return [(w, TRUE)]
+            if all(v is True for v in verdicts) and len(idx) >= 1 and (a[2] == TOP and b[2] == TOP):
+                return [(w, TRUE)]
+            return [(w, BOOL)]
     si, sj = int_singleton(a) if is_int(a) else None, int_singleton(b) if is_int(b) else None
     if si is not None and sj is not None:
         return [(w, TRUE if si == sj else FALSE)]
@@ -573,6 +602,85 @@ def cstr_starts_with(I, w, ci, args):
     return None
 
 
+def _cstr2(I, w, args):
+    a, b = args[0], args[1]
+    for _ in range(3):
+        if a[0] == 'ref':
+            a = I.read(w, a[1])
+        if b[0] == 'ref':
+            b = I.read(w, b[1])
+    return (a[1], b[1]) if a[0] == 'cstr' and b[0] == 'cstr' else None
+
+
+def cstr_strip_prefix(I, w, ci, args):
+    ab = _cstr2(I, w, args)
+    if ab is None:
+        return None
+    return [(w, some(('cstr', ab[0][len(ab[1]):])) if ab[0].startswith(ab[1]) else none())]
+
+
+def cstr_strip_suffix(I, w, ci, args):
+    ab = _cstr2(I, w, args)
+    if ab is None:
+        return None
+    return [(w, some(('cstr', ab[0][:len(ab[0]) - len(ab[1])])) if ab[0].endswith(ab[1]) else none())]
+
+
+def cstr_ends_with(I, w, ci, args):
+    ab = _cstr2(I, w, args)
+    if ab is None:
+        return None
+    return [(w, TRUE if ab[0].endswith(ab[1]) else FALSE)]
+
+
+def cstr_split_once(I, w, ci, args):
+    """constant text split at a constant one-byte char or constant str delimiter"""
+    a, d = args[0], args[1]
+    for _ in range(3):
+        if a[0] == 'ref':
+            a = I.read(w, a[1])
+    if a[0] != 'cstr':
+        return None
+    if is_int(d) and int_singleton(d) is not None and int_singleton(d) < 0x80:
+        delim = bytes([int_singleton(d)])
+    elif d[0] == 'cstr' and d[1]:
+        delim = d[1]
+    else:
+        return None
+    i = a[1].find(delim)
+    if i < 0:
+        return [(w, none())]
+    return [(w, some(('tuple', (('cstr', a[1][:i]), ('cstr', a[1][i + len(delim):])))))]
+
+
+def cstr_split_last(I, w, ci, args):
+    a = args[0]
+    for _ in range(3):
+        if a[0] == 'ref':
+            a = I.read(w, a[1])
+    if a[0] != 'cstr':
+        return None
+    if not a[1]:
+        return [(w, none())]
+    return [(w, some(('tuple', (('ref', ('const', const_int(a[1][-1]))), ('cstr', a[1][:-1])))))]
+
+
+def cstr_last(I, w, ci, args):
+    a = args[0]
+    for _ in range(3):
+        if a[0] == 'ref':
+            a = I.read(w, a[1])
+    if a[0] != 'cstr':
+        return None
+    return [(w, some(('ref', ('const', const_int(a[1][-1])))) if a[1] else none())]
+
+
+MODELS['core::str::<impl str>::split_once'] = cstr_split_once
+MODELS['core::slice::<impl [T]>::split_last'] = cstr_split_last
+MODELS['core::slice::<impl [T]>::last'] = cstr_last
+MODELS['core::str::<impl str>::strip_prefix'] = cstr_strip_prefix
+MODELS['core::str::<impl str>::strip_suffix'] = cstr_strip_suffix
+MODELS['core::str::<impl str>::ends_with'] = cstr_ends_with
 MODELS['core::str::<impl str>::get_unchecked'] = cstr_get
 MODELS['core::str::<impl str>::starts_with'] = cstr_starts_with
 
@@ -605,3 +713,33 @@ for _k in list(MODELS):
         MODELS['core::slice::<impl [T]>::' + _k.rsplit('::', 1)[1]] = MODELS[_k]
 MODELS['core::clone::Clone::clone'] = _clone
 MODELS['core::cmp::PartialEq::eq'] = _eq
+
+
+def _ne(I, w, ci, args):
+    r = _eq(I, w, ci, args)
+    if r is None:
+        return None
+    return [(w2, TRUE if v == FALSE else FALSE if v == TRUE else v) for w2, v in r]
+
+
+MODELS['core::cmp::PartialEq::ne'] = _ne
+
+
+def option_copied(I, w, ci, args):
+    """Option<&T>::copied / cloned for plain values"""
+    out = []
+    for v in I.split_value(args[0], OPTION):
+        if v[0] != 'adt':
+            return None
+        if v[2] == 0:
+            out.append((w, none()))
+        else:
+            x = v[3][0]
+            if x[0] == 'ref':
+                x = I.read(w, x[1])
+            out.append((w, some(x)))
+    return out
+
+
+MODELS['core::option::Option::copied'] = option_copied
+MODELS['core::option::Option::cloned'] = option_copied
